@@ -14,17 +14,17 @@ def case(pid, scen, orders, extras, naux=1, cdim=0):
 
 def build_cases(tier):
     c = [case('C20', 'readfaults', [1], [1], 1), case('C20', 'readfaultsmem', [1, 0], [0, 1], 2), case('C20', 'occupied', [1, 0], [0, 1], 1), case('C20', 'keys', [1], [0], 2), case('C20', 'keys', [1], [0], 0),
-         case('C20', 'convolve', [1, 0], [0, 0], 0, 0), case('C20', 'permute', [1, 0], [0, 1], 1)]
+         case('C20', 'convolve', [1, 0], [0, 0], 0, 0), case('C20', 'permute', [1, 0], [0, 1], 1), case('C20', 'fitfaults', [1], [1], 0)]
     if tier != 'quick':
         c += [case('C20', 'readfaults', [2, 0, 1], [0, 1, 0], 3), case('C20', 'readfaultsmem', [0], [2], 0), case('C20', 'occupied', [2], [1], 3), case('C20', 'keys', [1, 1], [0, 0], 3),
-              case('C20', 'convolve', [1, 0], [0, 0], 1, 1), case('C20', 'convolve', [2], [1], 0, 0), case('C20', 'permute', [0, 1, 2], [1, 0, 0], 2)]
+              case('C20', 'convolve', [1, 0], [0, 0], 1, 1), case('C20', 'convolve', [2], [1], 0, 0), case('C20', 'permute', [0, 1, 2], [1, 0, 0], 2), case('C20', 'fitfaults', [1, 0], [0, 1], 0)]
     return c
 
 def replay_binary():
     def build():
         # AddressSanitizer build: glibc notices only some double frees, the sanitizer all of them (and reads of released blocks)
-        d = scratch(); ref = build_ref_objects('rp20', [REPO + '/src/core/bspline.cpp', REPO + '/src/core/fitsio.cpp', REPO + '/src/core/convolve.cpp'], sanitize=True)
-        out = os.path.join(d, 'replay_state'); run(['g++'] + GXX_FLAGS + ['-fsanitize=address,undefined', '-g', '-O1', '-I' + VERIF + '/harness', VERIF + '/harness/replay_state.cpp', '-o', out] + ref + ['-lcfitsio', '-lm']); return out
+        d = scratch(); ref = build_ref_objects('rp20', [REPO + '/src/core/bspline.cpp', REPO + '/src/core/fitsio.cpp', REPO + '/src/core/convolve.cpp', REPO + '/src/fitter/glam.c', REPO + '/src/fitter/splineutil.c', REPO + '/src/fitter/cholesky_solve.c', REPO + '/src/fitter/nnls.c'], sanitize=True)
+        out = os.path.join(d, 'replay_state'); run(['g++'] + GXX_FLAGS + ['-fsanitize=address,undefined', '-g', '-O1', '-I' + VERIF + '/harness', VERIF + '/harness/replay_state.cpp', '-o', out] + ref + ['-lcfitsio', '-lcholmod', '-lspqr', '-lsuitesparseconfig', '-llapack', '-lblas', '-lpthread', '-lm']); return out
     return once('replay_state', build)
 
 def evaluate(out, pid, cases):
@@ -63,11 +63,11 @@ def run_check(tier):
     out = Outcome('C20', tier)
     cases = build_cases(tier)
     evaluate(out, 'C20', cases)
-    out.cov['bounds'] = dict(operations='read_fits / read_fits_mem into an empty table with every single failing cfitsio call and every single failing allocation; reads into a populated table; move construction / assignment / self-assignment; write_key (append, overwrite, rejected) and remove_key (present, absent), convolve and permuteDimensions with every single failing allocation',
+    out.cov['bounds'] = dict(operations='read_fits / read_fits_mem into an empty table with every single failing cfitsio call and every single failing allocation; reads into a populated table; move construction / assignment / self-assignment; write_key (append, overwrite, rejected) and remove_key (present, absent), convolve, permuteDimensions and fit with every single failing allocation',
                              shapes=sorted({tuple(c[2]['orders']) for c in cases}), after_each='unchanged or empty if the operation failed; inspectable; destructor neither crashes nor deletes twice; ledger balance; FITS handle closed',
                              symbolic='coefficients, knots (ranked variables), extents uninterpreted; concrete rational knots where convolution sorts them')
     out.assumptions = ['histories are covered by induction over one operation from the empty and from a populated object; the abstract state is (empty | populated with exactly the blocks the ledger shows)',
-                       'allocation failures are injected through operator new (std::allocator); temporaries and table storage are not distinguished', 'fit() is not encoded here (argument handling is C13, results C09/C10)',
+                       'allocation failures are injected through operator new (std::allocator); temporaries and table storage are not distinguished', 'fit() runs on the semantic CHOLMOD model with every single failing operator-new allocation (CHOLMOD-internal allocation failures are outside); its argument handling is C13, its results C09/C10',
                        'reads that report success under an ignored I/O error (unreadable header space, unreadable EXTENTS -> defaults) are by design and only required to be destructible']
     return out.finish()
 
